@@ -143,7 +143,12 @@ package txt
 
 // ParseBlock: every slice expression stays within the text; the consumed byte count never exceeds the text;
 // the lines of the returned block tile the consumed prefix of the text.
+// bS(b), bE(b): where a block starts and ends in the backing array of the text it was parsed from (uninterpreted;
+// ParseBlock, the only place where blocks are created, gives them their meaning).
+//@ spec bS(b Block) int
+//@ spec bE(b Block) int
 //@ func ParseBlock
+//@ defines implies(nonnil(result0), bS(result0) == stroff(text) && bE(result0) == stroff(text) + result1)
 //@ ensures 0 <= result1 && result1 <= len(text)
 //@ ensures implies(nonnil(result0), typeis(result0, *block) && fresh(result0) && result0.(*block).precedingLineCount == precedingLineCount)
 //@ ensures implies(nonnil(result0), tiles(result0.(*block).lines, text, result1) && len(result0.(*block).lines) >= 1)
